@@ -86,7 +86,7 @@ PROPS = {
                   "incl. the visit-trait views and node/edge indexing bijections; non-trivial = >=10 ops with >=1 effective removal; "
                   "distinct = hash of (type config, op-kind sequence, final edge set)"),
     "C02": T(800, 25000, sites=["stable_reuse_vacant_node", "stable_reuse_vacant_edge", "stable_add_vacant_node"],
-             t={"legs": ["debug", "release", "asan", "miri"], "asan_cases_per_shard": 1200, "miri_cases_per_shard": 8},
+             t={"legs": ["debug", "release", "asan", "miri"], "asan_cases_per_shard": 1200, "miri_sb_skip_ops": ["index_twice_mut"], "miri_cases_per_shard": 8},
              rule="operation histories on StableGraph<u32,u32,Ty,Ix> (2 edge types x 4 index widths; 30-400 ops out of 15 kinds incl. "
                   "failing try_add_edge/try_update_edge/try_add_node, removal of vacant / out-of-range indices, reverse and clear_edges "
                   "with vacancies, retain_*, map, filter_map, extend_with_edges targeting vacant indices and indices beyond the bound, "
@@ -97,7 +97,7 @@ PROPS = {
                   "release at equal volume; non-trivial = >=10 ops and >=1 node vacancy at some point; distinct = hash of (op-kind "
                   "sequence, final structure)"),
     "C01": T(500, 10000, sites=["graph_index_twice_one", "graph_index_twice_both", "graph_remove_node_swapped", "graph_remove_edge_swapped"],
-             t={"legs": ["debug", "release", "asan", "miri"], "asan_cases_per_shard": 1200, "miri_cases_per_shard": 8},
+             t={"legs": ["debug", "release", "asan", "miri"], "asan_cases_per_shard": 1200, "miri_sb_skip_ops": ["index_twice_mut"], "miri_cases_per_shard": 8},
              rule="operation histories on Graph<u32,u32,Ty,Ix> (2 edge types x u8/u16/u32/usize; 30-400 ops out of 16 kinds: add/try_add/"
                   "Build::add node+edge, update_edge, remove_edge, remove_node, weight mutation via 3 routes, reverse, clear(_edges), "
                   "retain_nodes/edges, map, filter_map, extend_with_edges, clone(_from), into_edge_type round trip, Graph<->StableGraph, "
